@@ -97,7 +97,21 @@ class C06Bounded(Bounded):
         # --- whole documents: rule, correlation, filter
         RULE_OK = copy.deepcopy(RULE)
         RULE_OK["detection"]["sel"]["f|contains"] = ["a", "b"]
+        def doc_queries(cls, d):
+            from sigma.collection import SigmaCollection
+            from sigma.backends.test import TextQueryTestBackend
+            base = [SigmaRule.from_dict({"title": t, "name": t, "logsource": {"category": "c"}, "detection": {"s": {"User": t, "u": "admin"}, "condition": "s"}}) for t in "nmp"]
+            col = SigmaCollection(base + [cls.from_dict(copy.deepcopy(d))])
+            col.resolve_rule_references()
+            return TextQueryTestBackend().convert(col)
+        more = [{"title": "C4", "correlation": {"type": "temporal_ordered", "rules": ["n", "p", "m"], "timespan": "1d", "group-by": ["User"], "condition": "m and (n or p)"}},
+                {"title": "C5", "correlation": {"type": "event_count", "rules": ["n"], "timespan": "1d", "group-by": ["User"], "condition": {"gt": 0}, "generate": True}},
+                {"title": "C6", "correlation": {"type": "value_percentile", "rules": ["n"], "timespan": "1d", "group-by": ["User"], "condition": {"gt": 5, "field": "x", "percentile": 0}}},
+                {"title": "C7", "correlation": {"type": "value_sum", "rules": ["n", "m"], "timespan": "1d", "group-by": ["User"], "condition": {"eq": 0, "field": "x"}}},
+                {"title": "C8", "correlation": {"type": "temporal", "rules": ["m", "n"], "timespan": "1d", "group-by": ["User"]}},
+                {"title": "C9", "correlation": {"type": "value_count", "rules": ["p", "n"], "timespan": "30s", "group-by": ["User", "Host"], "condition": {"neq": 1, "field": ["x", "y"]}, "aliases": {"Host": {"p": "h1", "n": "h2"}}, "generate": True}}]
         for kind, cls, doc in (("rule", SigmaRule, RULE_OK), ("correlation", SigmaCorrelationRule, CORR), ("correlation", SigmaCorrelationRule, CORR2), ("correlation", SigmaCorrelationRule, CORR3), ("filter", SigmaFilter, FILT),
+                               *[("correlation", SigmaCorrelationRule, m) for m in more],
                                ("rule", SigmaRule, {**RULE_OK, "date": datetime.date(2024, 1, 2), "modified": "2024/01/03"})):
             ev += 1
             nontriv += 1
@@ -111,6 +125,15 @@ class C06Bounded(Bounded):
             except Exception as e:
                 fail("document", f"{kind} document {doc.get('title')}: round trip raises {type(e).__name__}: {e}", [kind])
                 continue
+            # "converts to the same queries": the original and both reloaded objects, each in a fresh collection with the rules they refer to
+            if kind in ("correlation", "filter"):
+                try:
+                    qs = [doc_queries(cls, o) for o in (doc, d1, norm(d3))]
+                except Exception as e:
+                    fail("document-queries", f"{kind} document {doc.get('title')}: conversion of the original / reloaded object raises {type(e).__name__}: {e}", [kind, doc.get("title")])
+                    continue
+                if qs[0] != qs[1] or qs[0] != qs[2]:
+                    fail("document-queries:" + str(doc.get("title")), f"{kind} document {doc.get('title')} converts to {qs[0]}, after to_dict() and reloading to {qs[1]}, after YAML to {qs[2]}", [kind, doc.get("title")])
             if norm(d1) != norm(d2) or norm(d1) != norm(d3):
                 diff = [k for k in set(norm(d1)) | set(norm(d2)) if norm(d1).get(k) != norm(d2).get(k) or norm(d1).get(k) != norm(d3).get(k)]
                 fail("document", f"{kind} document {doc.get('title')}: dict form differs after reload in {diff}: {[(norm(d1).get(k), norm(d2).get(k), norm(d3).get(k)) for k in diff][:2]}", [kind])
@@ -158,5 +181,5 @@ class C06Bounded(Bounded):
         if os.environ.get("C06_DUMP"):
             json.dump(failing_t, open(os.environ["C06_DUMP"], "w"))
         return {"evaluations": ev, "distinct_nontrivial": nontriv, "failures": fails, "failure_counts": seen,
-                "bound": f"{len(keys)} field/modifier keys x {len(values)} values (+ type-specific values) ; 6 whole documents (rule, 3 correlation types, filter, both date spellings); {len(transformations)} transformations x {len(rule_docs)} rules",
+                "bound": f"{len(keys)} field/modifier keys x {len(values)} values (+ type-specific values) ; 12 whole documents (rule in both date spellings, 9 correlation rules over all condition shapes incl. zero thresholds, extended conditions, aliases, generate; filter), correlation / filter documents also compared by their converted queries; {len(transformations)} transformations x {len(rule_docs)} rules",
                 "rule": "distinct documents; non-trivial = loadable", "samples": samples, "exhaustive": True}
